@@ -958,23 +958,30 @@ example : SkNet.WL.IsPerm 3 (fun i => (i + 1) % 3) (fun i => (i + 2) % 3) ∧
       [⟨2, 0, 1, 2⟩, ⟨3, 1, 2, 3⟩] := by
   refine ⟨⟨by decide, by decide, by decide, by decide⟩, by decide +kernel, by decide⟩
 
-/-- **The tree sampling divergence is non-negative and its normalised value lies in [0, 1]** (`tsd_nonneg`,
-    `tsd_le_one`), on the model of `tree_sampling_divergence` (`tsdTerms`: the exact rational pairs
+/-- **The tree sampling divergence is non-negative and its normalised value lies in [0, 1] — over the reals**
+    (`tsd_nonneg`, `tsd_le_one`), on the model of `tree_sampling_divergence` (`tsdTerms`: the exact rational pairs
     `(edge_sampling[t], node_sampling[t])` of the score and `(A_uv, w_u · w_v)` of the mutual information, computed
-    by the replay of `AggregateGraph.merge`), with the logarithms taken in the reals (`klSum`, `tsdReal`; the
-    driver evaluates the same expressions in `Float` for the run lines). For every square non-negative matrix with
-    positive total weight, both weightings and every valid dendrogram over its `n ≥ 2` nodes: the function returns,
-    `0 ≤ TSD ≤ mutual information`, hence `0 ≤ TSD(normalized=True) ≤ 1`.
+    by the replay of `AggregateGraph.merge`), with the logarithms taken in ℝ (`klSum`, `tsdReal`).  The code and
+    the driver evaluate the same expressions in float64: the theorem bounds the *real-valued* quantity; it says
+    nothing about rounding.  On the pinned code the float quotient was far outside [0, 1] whenever the exact mutual
+    information is 0 (rank-one adjacency: 1.94 for `[[6,9],[8,12]]`) — F22, repaired: the quotient is taken only
+    above the threshold `τ = 1e-10` and clipped to [0, 1]; `tsdReal` has the same shape, and the clip never acts on
+    the real value (last conjunct).
+    For every square non-negative matrix with positive total weight, both weightings and every valid dendrogram
+    over its `n ≥ 2` nodes: the function returns, `0 ≤ TSD ≤ mutual information`, hence for every threshold
+    `0 ≤ τ ≤ 1`: `0 ≤ TSD(normalized=True) ≤ 1`, and it is `TSD / MI` when `MI > τ`.
     Proof: `edge_sampling[t]` and `node_sampling[t]` are the masses of the pairs of nodes whose first common merge
     is `t`, under the edge distribution and under the product of the node distributions (`tsd_lists`); a
     Kullback-Leibler divergence is non-negative and does not increase under a push-forward (log-sum inequality). -/
 theorem tsd_range {n : Nat} {a : Mat} {D : Dendro α} (degree : Bool) (hn : 2 ≤ n) (hsq : Square n a)
-    (hnn : ∀ i j, 0 ≤ a.get i j) (htot : 0 < a.total) (hv : ValidDendro n D = true) :
+    (hnn : ∀ i j, 0 ≤ a.get i j) (htot : 0 < a.total) (hv : ValidDendro n D = true) {τ : ℝ} (hτ0 : 0 ≤ τ)
+    (hτ1 : τ ≤ 1) :
     ∃ T, tsdTerms degree n a D = .ok T ∧
       0 ≤ klSum T.score ∧ klSum T.score ≤ klSum T.mutualInfo ∧
-      0 ≤ tsdReal T false ∧ 0 ≤ tsdReal T true ∧ tsdReal T true ≤ 1 := by
+      0 ≤ tsdReal T false τ ∧ 0 ≤ tsdReal T true τ ∧ tsdReal T true τ ≤ 1 ∧
+      (τ < klSum T.mutualInfo → tsdReal T true τ = klSum T.score / klSum T.mutualInfo) := by
   obtain ⟨T, hT, h0, h1⟩ := tsd_bounds degree hn hsq hnn htot hv
-  exact ⟨T, hT, h0, h1, tsdReal_range h0 h1⟩
+  exact ⟨T, hT, h0, h1, tsdReal_range h0 h1 hτ0 hτ1⟩
 
 /-- non-vacuity: the terms of the score on the weighted triangle: two merges, each with edge mass 1/2, node masses
     4/9 and 5/9 -/
